@@ -1,2 +1,24 @@
+//! U4 bounded twin: the reachability trace and the orphan test on the compiled code (with the table
+//! stand-in), on small concrete graph structures with symbolic multiplicities.  The unbounded proof of
+//! the same contract is the Verus pipeline; this twin exists for changes that the extraction rules
+//! cannot carry and for counterexamples.
 #![allow(dead_code, unused_imports)]
 use super::*;
+use crate::verif::util::*;
+
+/// two objects, a -> b recorded `k` times; b holds nothing.  Trace from a.
+#[kani::proof]
+#[kani::unwind(7)]
+fn u4_trace_chain2() {
+    let a = Rc::new(0u8);
+    let b = Rc::new(1u8);
+    let k: usize = kani::any();
+    kani::assume(k >= 1);
+    install(&a, fwd(&b), k);
+    install(&b, bwd(&a), k);
+    let m = cycle_refs(fwd(&a));
+    kani::assert(m.len() == 1, "U4.trace.chain2.exactly_one_key");
+    kani::assert(m.get(&fwd(&b)) == Some(&k), "U4.trace.chain2.count_is_multiplicity");
+    core::mem::forget(m);
+    core::mem::forget((a, b));
+}
